@@ -33,7 +33,7 @@ def V(site, clause, msg, triggers=(), **detail):
 
 def cases(tier, seed):
     out = []
-    for dsn in (['S2', 'S3u', 'S5'] if tier == 'quick' else ['S2', 'S2u', 'S3', 'S3u', 'S5', 'S8', 'R']):
+    for dsn in (['S2', 'S3u', 'S5'] if tier == 'quick' else data.THOROUGH):
         for pr in PRIORS:
             out.append(('SDML/%s/%s' % (dsn, pr), ('sdml', dsn, pr, seed)))
             out.append(('SDML_Supervised/%s/%s' % (dsn, pr), ('sup', dsn, pr, seed)))
